@@ -117,6 +117,7 @@ type Job struct {
 	Cells     int      `json:"cells,omitempty"`
 	N         int      `json:"n,omitempty"`
 	Batches   [][]Run  `json:"batches,omitempty"`  // per producer: run-length list of batch sizes
+	StallMs   int      `json:"stall_ms,omitempty"` // scripted renderers: real-time pause after the first batch (a slow renderer; the library has no clock seam, so this is wall-clock time)
 	Name      string   `json:"name,omitempty"`     // output file name (default job<id>.<ext>): spaces, non-ASCII, format verbs, long names, odd extensions
 	Pre       int      `json:"pre,omitempty"`      // bytes of unrelated content already stored at the output path before the call
 	Share     bool     `json:"share,omitempty"`    // take the renderer value (and, in single-job groups, the model object) from the episode's pool, as a program that keeps them in variables does
